@@ -319,14 +319,10 @@ orc_compiler_compile_program (OrcCompiler *compiler, OrcProgram *program, OrcTar
   const char *error_msg;
 
   ORC_INFO("initializing compiler for program \"%s\"", program->name);
-  error_msg = orc_program_get_error (program);
-  if (error_msg && strcmp (error_msg, "")) {
-    ORC_WARNING ("program %s failed to compile, reason: %s",
-        program->name, error_msg);
-    free (compiler);
-    return ORC_COMPILE_RESULT_UNKNOWN_PARSE;
-  }
 
+  /* whatever an earlier compilation left behind goes first: a program that
+   * was changed after compiling must not keep its old code when this
+   * compilation fails */
   if (program->orccode) {
     orc_code_free (program->orccode);
     program->orccode = NULL;
@@ -341,6 +337,14 @@ orc_compiler_compile_program (OrcCompiler *compiler, OrcProgram *program, OrcTar
     program->code_exec = program->backup_func;
   } else {
     program->code_exec = (void *)orc_executor_emulate;
+  }
+
+  error_msg = orc_program_get_error (program);
+  if (error_msg && strcmp (error_msg, "")) {
+    ORC_WARNING ("program %s failed to compile, reason: %s",
+        program->name, error_msg);
+    free (compiler);
+    return ORC_COMPILE_RESULT_UNKNOWN_PARSE;
   }
 
   compiler->program = program;
